@@ -150,7 +150,7 @@ func NamePatternFromStr(s string) (NamePattern, error) {
 	if strs[0] == "" {
 		strs = strs[1:]
 	}
-	if strs[len(strs)-1] == "" {
+	if len(strs) > 0 && strs[len(strs)-1] == "" {
 		strs = strs[:len(strs)-1]
 	}
 	ret := make(NamePattern, len(strs))
